@@ -68,6 +68,10 @@ Inductive op :=
        check_conflict. If accepted the tasks go into the requesting change when it exists and is in progress, otherwise
        into a new change of the given kind. *)
 | Progress (c i : N) (r : bool)    (* task number i of change c gets a ready (r = true) or unready status *)
+| Unchecked (kind : bytes) (snaps : list N)
+    (* a request of an entry point that makes NO snap conflict check at all (snapshotstate.Check / Forget): a change with
+       one task affecting snaps is created unconditionally. Like Inject it is outside the well-formed histories of the
+       theorems; unlike Inject the monitor judges it as a request. *)
 | Inject (kind : bytes) (snaps : list N).
     (* a change with one task affecting snaps that appears WITHOUT any conflict check (used by a driver to put another
        subsystem's change into the state; not a well-formed request: the theorems do not range over it) *)
@@ -78,6 +82,7 @@ Definition rejected (st : state) (o : op) : bool :=
       check_many st snaps ignore || negb same || (run_excl && check_exclusive st true ignore)
   | Progress _ _ _ => false
   | Inject _ _ => false
+  | Unchecked _ _ => false
   end.
 
 Definition next_id (st : state) : N := fold_right (fun c m => N.max (N.succ (c_id c)) m) 1 st.
@@ -104,6 +109,7 @@ Definition step (st : state) (o : op) : state :=
       map (fun c => if (c_id c =? ci) && negb (c_ready c)
                     then mkChange (c_id c) (c_kind c) (c_dg c) (set_nth (c_tasks c) i r) else c) st
   | Inject kind snaps => st ++ [mkChange (next_id st) kind false [mkTask snaps false]]
+  | Unchecked kind snaps => st ++ [mkChange (next_id st) kind false [mkTask snaps false]]
   end.
 
 Definition run (st : state) (ops : list op) : state := fold_left step ops st.
@@ -114,6 +120,7 @@ Definition req_wf (o : op) : bool :=
   | Request _ _ _ _ _ snaps tasks => forallb (fun t => forallb (fun x => mem x snaps) (t_snaps t)) tasks
   | Progress _ _ _ => true
   | Inject _ _ => false
+  | Unchecked _ _ => false
   end.
 
 (* the changes that count: in progress and not of an exempt kind (pre-download, become-operational) *)
@@ -210,7 +217,7 @@ Definition must_conflict (st : state) (q : query) : bool :=
      end.
 
 Definition is_accepted_request (h : hobs) : bool :=
-  match ho_op h with Request _ _ _ _ _ _ _ => negb (ho_rejected h) | _ => false end.
+  match ho_op h with Request _ _ _ _ _ _ _ => negb (ho_rejected h) | Unchecked _ _ => true | _ => false end.
 
 (* after an accepted request: no snap has gained a further in-progress non-exempt change so that it now has more than
    one; the tasks created affect only snaps the request had checked. After a rejected request: nothing was created.
@@ -223,7 +230,7 @@ Fixpoint monitor_steps (prev_changes prev_tasks : N) (prev_touching : list (N * 
             existsb (fun e => negb (N.of_nat (List.length (snd e)) <=? 1)
                               && negb (N.of_nat (List.length (snd e)) <=? N.of_nat (List.length (lookup prev_touching (fst e)))))
                     (ho_touching h) in
-      let unchecked := is_accepted_request h && negb (req_wf (ho_op h)) in
+      let unchecked := match ho_op h with Request _ _ _ _ _ _ _ => negb (ho_rejected h) && negb (req_wf (ho_op h)) | _ => false end in
       let grew := ho_rejected h && negb ((ho_nchanges h =? prev_changes) && (ho_ntasks h =? prev_tasks)) in
       if crowded || unchecked || grew then true else monitor_steps (ho_nchanges h) (ho_ntasks h) (ho_touching h) r
   end.
